@@ -58,3 +58,9 @@ package diagnostic
 //@ nobody
 //@ func groupConflicts
 //@ loop 0 invariant only-processed-dropped (forall ((j Int)) (=> (mapin indicesToIgnore j) (and (<= 0 j) (<= j rangeindex))))
+
+//@ func nolintContainsNilAway
+//@ pure
+//@ nobody
+//@ method go/ast.Node End fn
+//@ method go/ast.Node Pos fn
